@@ -145,8 +145,16 @@ func genClonesGrammar(t *rapid.T) *payload {
 	p := &payload{Kind: "clones", Family: "grammar", Base: base}
 	p.Source, p.Modules = renderProg(prog)
 	stable := func(in map[string]*lang.Val, answer int64) bool {
-		if _, why := refx.Stable(prog, in, refConfig(answer)); why != "" {
+		out, why := refx.Stable(prog, in, refConfig(answer))
+		if why != "" {
 			ev.Discard(why)
+			return false
+		}
+		if out.Stats.MapOrders > 0 {
+			// the baseline is the code under test itself, run alone: Go's map
+			// order must not be able to make two runs of one participant differ
+			// (the four fixed orders of the filter cannot rule that out)
+			ev.Discard("excluded:traverses a map with >= 2 keys")
 			return false
 		}
 		return true
@@ -176,7 +184,7 @@ func genClonesGrammar(t *rapid.T) *payload {
 	}
 	p.CloneInside = rapid.IntRange(0, 2).Draw(t, "cloneInside") == 0
 	if rapid.IntRange(0, 2).Draw(t, "runFirst") == 0 {
-		if _, why := refx.Stable(prog, base, refConfig(hostAnswer)); why == "" {
+		if out, why := refx.Stable(prog, base, refConfig(hostAnswer)); why == "" && out.Stats.MapOrders == 0 {
 			p.RunFirst = true
 		}
 	}
